@@ -16,6 +16,7 @@ Registrable(trace) == (Supported \ {"HEAD", "OPTIONS"}) \ (IF trace THEN {"TRACE
 NewRouter(cfg) == [cfg |-> cfg, tab |-> <<>>, use |-> <<>>, addOnly |-> TRUE]
 
 Live(R)   == DOMAIN R.tab
+HasLong(R) == \E p \in DOMAIN R.tab : Len(p) > MaxPat     \* a live pattern the specification does not interpret
 AtomsOf(R) == [p \in DOMAIN R.tab |-> R.tab[p].atoms]
 MethodsOf(R, p) == DOMAIN R.tab[p].ms
 
@@ -43,7 +44,7 @@ SameShape(R, pat, atoms) == {q \in Live(R) : q # pat /\ Shape(R.tab[q].atoms) = 
 
 \* the admissible verdicts of Handle(pat, methods); reOK: logged regexp.Compile answer
 HandleVerdicts(R, pat, methods, reOK) ==
-  LET P   == Parse(pat)
+  LET P   == PParse(pat)
       ms  == EffMethods(methods)
       amb == SameShape(R, pat, P.atoms)
   IN IF P.err = "outside" THEN {"ok", "err"}                  \* outside the well-formed class
@@ -57,7 +58,7 @@ HandleVerdicts(R, pat, methods, reOK) ==
 DoHandle(R, pat, h, mws, methods) ==
   LET ms  == ToSet(EffMethods(methods))
       old == IF pat \in Live(R) THEN R.tab[pat]
-             ELSE [atoms |-> Parse(pat).atoms, ms |-> <<>>, auto |-> mws]
+             ELSE [atoms |-> PParse(pat).atoms, ms |-> <<>>, auto |-> mws]
       ent == [atoms |-> old.atoms, auto |-> old.auto,
               ms |-> [m \in ms \cup DOMAIN old.ms |-> IF m \in ms THEN [h |-> h, mw |-> mws] ELSE old.ms[m]]]
   IN [R EXCEPT !.tab = [p \in Live(R) \cup {pat} |-> IF p = pat THEN ent ELSE R.tab[p]]]
@@ -133,7 +134,7 @@ ServeOutcomes(R, method, path) ==
 \* ------------------------------------------------------------------ URL (C10)
 \* result: [ok |-> BOOLEAN, val |-> string]; "free" = the statement leaves it open
 URLResult(R, strict, pat, params, reOK) ==
-  LET P    == Parse(pat)
+  LET P    == PParse(pat)
       fail == [ok |-> FALSE, val |-> "", free |-> FALSE]
       free == [ok |-> FALSE, val |-> "", free |-> TRUE]
       names == ParamNames(P.atoms)
